@@ -125,6 +125,8 @@ def c12(F, R, tier):
           'accumulator structure; DC gain / pole clauses of the recursive members are checked numerically under C09/C11.')
 def c10(F, R, tier):
     e_typed_props.run_c10(F, R)
+    from . import e_lti_props
+    e_lti_props.run_c10_dc(F, R, tier)
 
 
 @register('C04', 'other',
@@ -161,3 +163,25 @@ from . import e_rolling
           'Some(ln(x2/x1)) from any prior state. ' + PARTIAL)
 def c13(F, R, tier):
     e_rolling.run_c13(F, R)
+
+
+from . import e_lti_props
+
+
+@register('C09', 'other',
+          'Stability, linear-recursion clause: for every recursive view and every window length in the enumerated range (from the '
+          'constructor\'s minimum), the steady-state update is extracted as linear forms over state atoms (coefficients constant-folded '
+          'from N and literals; non-linear sub-results are exogenous atoms) and every strongly connected feedback block has spectral '
+          'radius < 1; coefficients are finite; the smoother pole a1 is exp(negative) for all N >= 1 (symbolic); TrendFlex/ReFlex are '
+          'self-normalised X/sqrt(a·X²+b·prev) with leak b < 1; the Fisher recursion has feedback 0.5 with the clamp dominating the log. ' + PARTIAL)
+def c09(F, R, tier):
+    e_lti_props.run_c09(F, R, tier)
+
+
+@register('C11', 'other',
+          'Difference equations, linear stages and named coefficients: the steady-state impulse response of the recurrence extracted '
+          'from the code equals that of the difference equation stated in the property (SuperSmoother, RoofingFilter, LaguerreFilter, '
+          'the smoother inside TrendFlex and ReFlex) for every N in the enumerated range; alpha/gamma = 2/(N+1); CyberCycle pole radius '
+          '1−alpha; Fisher recursion constants; self-normalised flex outputs; Fisher window extrema are rescanned. ' + PARTIAL)
+def c11(F, R, tier):
+    e_lti_props.run_c11(F, R, tier)
